@@ -29,3 +29,7 @@ claim("C03", "exploration",
       "Differential runtime monitor on the real alert provider + inhibitor in virtual time: after every step of generated histories (fire, refresh, resolve, time-out, provider and cache GC, re-fire; several sources sharing equal-label values; two-sided rules) Inhibitor.Mutes is compared with the documented existential rule over the provider's currently firing alerts; bursts are replayed in several arrival orders; system scenarios check notifications and the API's inhibitedBy.",
       "Trusts the reference rule (harness/model/inhibit.go) and the provider's own alert list as 'currently firing'; <=3 rules, <=8 label sets.",
       "runtime monitoring: differential oracle after every step, permutation replay, trace checkers over system executions", "DESIGN.md section 3 C03")
+claim("C14", "exploration",
+      "Runtime monitor with unique version tags: bursts of back-to-back updates of one label set (annotation v=<set>/<seq>) are submitted to the real app (a) in virtual time while ingestion workers are held at a yield point for random durations and (b) in real time under the real scheduler at GOMAXPROCS 2..16 with logical quiescence; afterwards every group must hold the last submitted version; follow-on effects are judged by the notification checkers. Race-detector pass.",
+      "Reaches the interleavings that the Go scheduler and the worker.recv yield schedule produce; unique annotation values make the history unambiguous; real-time part has a 20 s watchdog whose firing is inconclusive.",
+      "runtime monitoring: version-tagged history checker (virtual time with injected delays + real-time stress) + Go race detector", "DESIGN.md section 3 C14")
